@@ -190,9 +190,19 @@ pub fn exec(check: &dyn Check, index: u64, master: u64, tier: Tier, want_sample:
         Some(v) => Tape::replay(v),
         None => Tape::record(seed ^ 0xFA17_FA17_FA17_FA17),
     };
+    // the process environment is part of the run: variables the code under test can ask for are answered from the run seed
+    crate::envsim::begin(seed);
+    let env0 = crate::envsim::simulated_reads();
     let out = guard(|| check.run(RunIn { index, seed, wtape, ftape, want_sample, tier, extra }));
+    crate::envsim::end();
+    let env_reads = crate::envsim::simulated_reads() - env0;
     match out {
-        Ok(o) => o,
+        Ok(mut o) => {
+            if env_reads > 0 {
+                o.probes.add("environment:getenv_calls_answered_by_the_simulator", env_reads);
+            }
+            o
+        }
         Err(p) => {
             // a panic that escaped the check's own guards: harness defect, not a property violation
             let mut o = RunOut::new();
